@@ -134,11 +134,15 @@ type verifSource struct {
 	data   []byte
 	pos    int
 	closes int
+	onRead func() // called on every Read (what else happens while data is being transferred)
 }
 
 func (s *verifSource) Read(p []byte) (int, error) {
 	if s.closes > 0 {
 		vnd.Unreachable("Read on a closed block reader")
+	}
+	if s.onRead != nil {
+		s.onRead()
 	}
 	if s.pos >= len(s.data) {
 		return 0, io.EOF
@@ -197,6 +201,29 @@ type verifLBM struct {
 	objects  map[digest.Digest][]byte
 	getLocs  []Location // location every invoked getter had been obtained for
 	getCalls []digest.Digest
+	// index: when set, every location passed to Get must be FRESH: equal to an answer the
+	// index gave (or a finalizer reported) at the current rotation count. A location is
+	// relative to the oldest block, so one that was obtained before the lock was released
+	// and the list rotated denotes another block.
+	index *verifKLM
+}
+
+func (m *verifLBM) requireFresh(loc Location) {
+	if m.index == nil {
+		return
+	}
+	fresh := false
+	for _, g := range m.index.history {
+		if g.kind == 0 && g.rot == m.rot {
+			fresh = vnd.Or(fresh, g.loc == loc)
+		}
+	}
+	for _, p := range m.puts {
+		if p.finalOK && p.finalRot == m.rot {
+			fresh = vnd.Or(fresh, p.loc == loc)
+		}
+	}
+	vnd.Assert(fresh, "the location map was consulted with a location obtained before the block list rotated (a relative block index carried across a release of the lock)")
 }
 
 func (m *verifLBM) dataFor(d digest.Digest) []byte {
@@ -208,6 +235,7 @@ func (m *verifLBM) dataFor(d digest.Digest) []byte {
 
 func (m *verifLBM) Get(loc Location) (LocationBlobGetter, bool) {
 	verifRequireLock(m.lock, false, "LocationBlobMap.Get")
+	m.requireFresh(loc)
 	m.gets++
 	needsRefresh := vnd.Bool()
 	if m.quiescent {
@@ -445,6 +473,27 @@ func verifScenarioFlatFindMissing() {
 	if err == nil {
 		vnd.Cover("findmissing-ok")
 		vnd.Assert(missing.Length() <= 2, "more digests reported missing than were asked about")
+		// whatever happened in between: the answer for each digest reflects the index's LAST
+		// word on it during the call (found: present; NOT_FOUND, e.g. because the object was
+		// rotated out between the two scans: missing)
+		for _, d := range set.Items() {
+			k := f.ba.getKey(d)
+			last := -1
+			for i, g := range f.klm.history {
+				if g.key == k {
+					last = i
+				}
+			}
+			isMissing := false
+			for _, m := range missing.Items() {
+				if m == d {
+					isMissing = true
+				}
+			}
+			if last >= 0 {
+				vnd.Assert(isMissing == (f.klm.history[last].kind == 1), "FindMissing answer for a digest contradicts the index's last answer for it during the call (e.g. an object that vanished between the scans reported present)")
+			}
+		}
 		if f.klm.fixed {
 			// quiescent index: reported missing iff the index says NOT_FOUND
 			for _, d := range set.Items() {
@@ -524,6 +573,11 @@ func verifHierIndexWrites(h *verifHier, d digest.Digest) {
 				}
 			}
 			vnd.Assert(lastCanonical >= 0 && h.klm.history[lastCanonical].loc == w.loc, "a lookup entry was written with a location other than the canonical entry's location as last read under the lock")
+			if lastCanonical >= 0 {
+				// ... and read AFTER the last rotation/quarantine: a location seen before the lock
+				// was released denotes another block (or none) once the list has moved
+				vnd.Assert(h.klm.history[lastCanonical].rot == w.rot, "a lookup entry was written with a canonical location read before the block list moved (the lock had been released in between)")
+			}
 		}
 	}
 }
@@ -596,8 +650,23 @@ func verifScenarioHierPut() {
 	if !valid {
 		src.data = []byte("zz")
 	}
+	// While the client's data is being transferred (no lock held) another request may move
+	// the block list (rotation, quarantine): at most once here.
+	h.klm.world = h.lbm
+	moved := false
+	src.onRead = func() {
+		if !moved && vnd.Choose(2) == 1 && h.lock.TryLock() {
+			moved = true
+			h.lbm.rot++
+			h.lbm.epoch++
+			h.lock.Unlock()
+		}
+	}
 	b := buffer.NewCASBufferFromReader(verifHierDigest, src, buffer.UserProvided)
 	err := h.ba.Put(ctx, verifHierDigest, b)
+	if moved {
+		vnd.Cover("put-list-moved-during-transfer")
+	}
 	vnd.Assert(src.closes == 1, "upload buffer not released exactly once")
 	verifHierIndexWrites(h, verifHierDigest)
 	for _, p := range h.lbm.puts {
@@ -866,4 +935,107 @@ func verifScenarioHierFindMissingTwo() {
 		vnd.Cover("findmissing2-one-refreshed")
 	}
 	vnd.Observe("hfm2", uint64(len(h.lbm.puts)), uint64(len(h.klm.puts)))
+}
+
+
+// ---------------------------------------------------------------------------
+// Reads and existence checks while ANOTHER request rotates the block list: a
+// second goroutine takes the write lock once, at any point the schedule allows
+// (in particular between the read-locked and the write-locked phase of the
+// operation), and releases the oldest block. The stubs then insist that every
+// location handed to the location map was obtained at the current rotation
+// count (verifLBM.requireFresh) - i.e. that the operation looked the object up
+// again after re-acquiring the lock.
+// ---------------------------------------------------------------------------
+
+// verifHierRootDigest: an object under the empty instance name (a chain of ONE lookup key,
+// which keeps the schedule space of the under-rotation scenarios small).
+var verifHierRootDigest = func() digest.Digest {
+	g := digest.MustNewFunction("", remoteexecution.DigestFunction_MD5).NewGenerator(2)
+	g.Write(verifObjData)
+	return g.Sum()
+}()
+
+func verifRotator(lock *sync.RWMutex, lbm *verifLBM) chan struct{} {
+	done := make(chan struct{})
+	go func() {
+		lock.Lock()
+		lbm.rot++
+		lbm.epoch++
+		lock.Unlock()
+		close(done)
+	}()
+	return done
+}
+
+func verifScenarioGetUnderRotation(hier bool) {
+	vnd.ExploreSchedules(true)
+	ctx := context.Background()
+	var b buffer.Buffer
+	var lbm *verifLBM
+	var done chan struct{}
+	if hier {
+		h := &verifHier{klm: &verifKLM{}, lbm: &verifLBM{kind: 0}, lock: &sync.RWMutex{}}
+		h.klm.lock, h.lbm.lock = h.lock, h.lock
+		h.klm.world, h.lbm.index = h.lbm, h.klm
+		h.ba = NewHierarchicalCASBlobAccess(h.klm, h.lbm, h.lock, nil).(*hierarchicalCASBlobAccess)
+		lbm = h.lbm
+		done = verifRotator(h.lock, h.lbm)
+		b = h.ba.Get(ctx, verifHierRootDigest)
+	} else {
+		f := &verifFlat{klm: &verifKLM{}, lbm: &verifLBM{kind: 0}, lock: &sync.RWMutex{}}
+		f.klm.lock, f.lbm.lock = f.lock, f.lock
+		f.klm.world, f.lbm.index = f.lbm, f.klm
+		f.ba = NewFlatBlobAccess(f.klm, f.lbm, digest.KeyWithoutInstance, f.lock, "verif", nil).(*flatBlobAccess)
+		lbm = f.lbm
+		done = verifRotator(f.lock, f.lbm)
+		b = f.ba.Get(ctx, verifObjDigest)
+	}
+	data, err := b.ToByteSlice(100)
+	<-done
+	verifAllClosedOnce(lbm)
+	if err == nil {
+		vnd.Cover("rot-get-ok")
+		vnd.Assert(string(data) == string(verifObjData), "Get completed with bytes other than the object's")
+	} else {
+		vnd.Cover("rot-get-failed")
+	}
+	if len(lbm.puts) > 0 {
+		vnd.Cover("rot-refresh-attempted")
+	}
+}
+
+func verifScenarioFindMissingUnderRotation(hier bool) {
+	vnd.ExploreSchedules(true)
+	ctx := context.Background()
+	var lbm *verifLBM
+	var done chan struct{}
+	var err error
+	if hier {
+		h := &verifHier{klm: &verifKLM{}, lbm: &verifLBM{kind: 0}, lock: &sync.RWMutex{}}
+		h.klm.lock, h.lbm.lock = h.lock, h.lock
+		h.klm.world, h.lbm.index = h.lbm, h.klm
+		h.ba = NewHierarchicalCASBlobAccess(h.klm, h.lbm, h.lock, nil).(*hierarchicalCASBlobAccess)
+		lbm = h.lbm
+		done = verifRotator(h.lock, h.lbm)
+		_, err = h.ba.FindMissing(ctx, verifHierRootDigest.ToSingletonSet())
+	} else {
+		f := &verifFlat{klm: &verifKLM{}, lbm: &verifLBM{kind: 0}, lock: &sync.RWMutex{}}
+		f.klm.lock, f.lbm.lock = f.lock, f.lock
+		f.klm.world, f.lbm.index = f.lbm, f.klm
+		f.ba = NewFlatBlobAccess(f.klm, f.lbm, digest.KeyWithoutInstance, f.lock, "verif", nil).(*flatBlobAccess)
+		lbm = f.lbm
+		done = verifRotator(f.lock, f.lbm)
+		_, err = f.ba.FindMissing(ctx, verifObjDigest.ToSingletonSet())
+	}
+	<-done
+	for _, s := range lbm.sources {
+		vnd.Assert(s.closes == 1, "a block reader opened by FindMissing was not closed exactly once")
+	}
+	if err == nil {
+		vnd.Cover("rot-findmissing-ok")
+	}
+	if len(lbm.puts) > 0 {
+		vnd.Cover("rot-findmissing-refreshed")
+	}
 }
